@@ -70,6 +70,25 @@ worlds per process.
       rank reads the trees through the library's reader and must get the trees of the data that is in the cache now (records and
       weight sums per patch and bin computed by the harness from the generating columns).  The (re)build / read history is
       replayed in Coq (`c06_memo_case`, Model/RankMemo.v; theorems C06_world_*).
+ (v)  jobs that fail TRANSIENTLY and the NUMBER OF TIMES a job is executed (harness/props/c06_faults.py, Model/DispatchRetry.v).
+      (i') lets a job fail as a fixed property of the task, with one plain exception class, and counts task MESSAGES.  Here the
+      job function records EVERY execution (task, rank, number of earlier executions of that task, failed?) and fails as PLANNED:
+      which tasks; with which exception - OSError with every errno of the platform (EIO, EAGAIN, ESTALE, EBUSY, ETIMEDOUT, EINTR,
+      ENOMEM, ECONNRESET ...; Python turns errno into BlockingIOError, TimeoutError, ConnectionResetError ...), with and without
+      file name, TimeoutError / ConnectionError / MemoryError / BlockingIOError / InterruptedError ... without errno, classes of
+      the standard library, own subclasses of all of these (230 kinds; the named ones are used in turn in every run); WHEN - on
+      the first execution of a task only, on every execution, on given ranks only; before or after the job body has run.
+      Runs: `iter_unordered` directly (2-5 ranks, every max_workers, eager / sync / mixed, seeded wildcard policies, every
+      sequence of wildcard choices for small lists) and the ENTRY POINTS that map through it - Catalog(cache) (Patch jobs),
+      build_trees (BinnedTrees.build), autocorrelate / crosscorrelate (process_patch_pair) and HistData.from_catalog
+      (_redshift_histogram) - as request class group T of (iii) (c06_common.fault_request: a plan names the call of
+      iter_unordered, the items, the exception, when), followed by a barrier and a valid operation in the same world.
+      Oracle = the statement: no task is executed twice; the ranks raise iff some execution failed, and then the exception
+      (task, class, errno) of a failed execution; without an error every task was executed once and the root got map f tasks;
+      where failing does not depend on the rank the ranks raise iff the single-process run does (for the entry points: the
+      single-process run of the same request with the same plan).  Evaluated in Coq (`c06_xdispatch_case`), which also replays
+      the run - task messages, executions with their outcome, result messages, closing broadcast - through the model of the
+      worker that executes ONCE (xrun POnce): a second execution of a task is an event the model does not offer.
 """
 import json
 import os
@@ -123,6 +142,13 @@ TRUSTED = [
     "process worlds: the oracle of the per-rank tree reads (c06_procworld.oracle_trees: patch of a record = the centre it was generated "
     "around, bin membership by the harness' own comparisons on the generated redshifts k/128 and the bin edges given as input, sums of "
     "weights k/8 exact) and the naming of what a rank read as a version of its cache path (c06_procworld.memo_history)",
+    "transient failures (v): harness/props/c06_faults.py - the job function of the direct runs and, for the entry points, the wrapper "
+    "of the job function installed where IterTracer wraps `parallel.iter_unordered` (driver process only; single-process reference: "
+    "c06_faults.ensure_installed) record every execution (simulator log op `xexec` + the job's own list, compared) and raise the "
+    "planned exception; items of a library call are tagged with their position on the root (worker ranks get unpickled copies) and the "
+    "binding of func_args / func_kwargs / unpack (3 lines of utils.parallel.ParallelJob) is done by the wrapper; the rank and task of "
+    "a raised error are read from its message, its class from type(err).__name__ and err.errno; translation of the log into xchoices "
+    "(harness/props/c06.py:xtranslate)",
 ]
 ASSUMPTIONS = [
     "ranks are threads of one interpreter and share one file system, also when they report different processor names",
@@ -132,6 +158,9 @@ ASSUMPTIONS = [
     "for the root rank, the other ranks only have to return",
     "process worlds (iv): the ranks are separate OS processes on ONE machine sharing one file system (fork of an interpreter that has "
     "imported the third-party packages but neither yaw nor an mpi4py); a world that has not ended after 150 s is a hang",
+    "transient failures (v): the exception a job raises is an Exception (not KeyboardInterrupt / SystemExit / StopIteration) that survives "
+    "pickling with class, arguments and errno (c06_faults.usable checks every kind before use); an execution that fails `after` the job "
+    "body has run all its side effects",
 ]
 RULE = ("dispatch cases = (world size, max_workers, rank0_node_only/hosts, send mode, wildcard policy+seed or explicit "
         "choice sequence, task list, consumer kind, item limit of the consumer); pipeline cases = (world size, max_workers, send mode, "
@@ -143,7 +172,9 @@ RULE = ("dispatch cases = (world size, max_workers, rank0_node_only/hosts, send 
         "operation, world size, max_workers, send mode, policy, seed, data spec); non-trivial when the single-process "
         "run raises and at least two ranks took part; process-world cases = (history of library calls with their data and binnings, world "
         "size, max_workers, send mode, wildcard policy, seed, jitter, processor names), non-trivial when >= 2 ranks and some call comes "
-        "after an earlier call / overwrite / tree rebuild on a cache path it uses")
+        "after an earlier call / overwrite / tree rebuild on a cache path it uses; transient-failure cases = dispatch tuple + fault plan "
+        "(items, exception kinds, first / always / ranks, before / after) resp. (group T request, call number of iter_unordered) + world tuple, "
+        "non-trivial when some execution failed on a world of >= 2 ranks")
 
 HEADER = "From Verif Require Import Prelude Dispatch.\nOpen Scope nat_scope.\n"
 HERE = os.path.dirname(os.path.abspath(__file__))
@@ -1891,6 +1922,12 @@ def run(ctx):
     ctx.extra["job_errors"] = dict(runs=len(st["eterms"]) + len(st["enoterm"]),
                                    what="failing-job dispatch runs and iter_unordered episodes of group C refusals replayed "
                                         "through estep_with (Model/Dispatch.v, c06_edispatch_case)")
+    ctx.extra["transient_failures"] = dict(
+        runs=len(st["xterms"]) + len(st["xnoterm"]), exception_kinds_in_catalogue=len(cf.all_kinds()),
+        exception_classes_seen=len(_cls_codes),
+        what="iter_unordered runs and iter_unordered calls of group T requests (Catalog(cache), build_trees, autocorrelate, crosscorrelate, "
+             "HistData.from_catalog) whose jobs record every execution and fail as planned (first execution only / always / given ranks only; "
+             "errno-carrying OSErrors, classes without errno, own subclasses), judged and replayed by c06_xdispatch_case (Model/DispatchRetry.v)")
     ctx.extra["consumer_stops"] = dict(runs=len(st["qterms"]),
                                        what="iter_unordered consumed by islice / a breaking loop with an item limit <= number of tasks, replayed "
                                             "through qstep_with (Model/Dispatch.v, c06_qdispatch_case); tie only")
@@ -1908,6 +1945,11 @@ def run(ctx):
                                        "are aligned (C06_collectives_terminate_iff_aligned, flag0 of c06_refusal_case)",
                                        "creation runs: nproc hosts mw = Some (number of observed processing ranks) and every chunk cut as "
                                        "scatter does (C06_layout_no_loss; flag0 of c06_layout_case)",
+                                       "transient failures: every logged event (task message, execution with its outcome, result message, closing "
+                                       "broadcast) enabled in xstep_with of the worker that executes once, final model state = observed yields / "
+                                       "execution log / per-rank outcome (flag0 of c06_xdispatch_case; C06_exec_exactly_once, C06_exec_error_iff); "
+                                       "C06_exec_agrees_with_single_process: its hypothesis (failing is a property of the task) holds for plans "
+                                       "`first` / `always` (bad0 given), not for `ranks` (bad0 = None)",
                                        "process worlds: every read of a rank is a read of the model world (rank < world size, one observation "
                                        "per read; flag0 of c06_memo_case) and returns the current version (flag1; C06_world_memo_case_sound)"]
 
